@@ -63,6 +63,29 @@ def run(repo='/repo', tier='quick'):
         facts = [a for a, e in P.facts_at(f, b)]
         ok = any(a[0] == 'data[(len - 1)]' and a[1] == '==' and a[2] in ("' '", '32') for a in facts)
         res.check(ok, 'C13.c', 'trim:only-trailing-spaces', 'len is only reduced under data[len - 1] == \' \'', 'htp_parse_uri shortens the target under a test other than data[len - 1] == \' \': bytes other than trailing spaces are silently dropped from the last component (guards: %s)' % facts[-2:], x['loc'])
+    # ... and nothing else may move the window: the buffer pointer and the length are not handed to a helper by address
+    for b, i, c in f.calls():
+        for a in c['args']:
+            a0 = strip(a)
+            if a0 is not None and a0.get('k') == 'un' and a0['op'] == '&' and P.K(a0['e']) in ('len', 'data'):
+                res.violated('C13.c', 'trim:window-by-address:%s' % (c.get('callee') or '?'), 'htp_parse_uri hands &%s to %s(): the window over the request target is changed by a helper (leading bytes or bytes other than trailing spaces can be dropped from the components)' % (P.K(a0['e']), c.get('callee')), c['loc'])
+    # the raw components are never modified after the split: the normaliser reads `incomplete` only through const parameters / copies
+    nz = db.get('htp_normalize_parsed_uri')
+    raw = [p_['name'] for p_ in nz.params if 'htp_uri_t' in p_['t']]
+    rawp = raw[0] if raw else 'incomplete'
+    nraw = 0
+    for b, i, c in nz.calls():
+        cal = db.fn.get(c.get('callee') or '')
+        for ai, a in enumerate(c['args']):
+            if not P.K(a).startswith(rawp + '->') and ('(*' + rawp) not in P.K(a):
+                continue
+            nraw += 1
+            ok = not P.writes_param(db, c.get('callee') or '?', ai)
+            res.check(ok, 'C13.c', 'raw-components-read-only:%s(%s)' % (c.get('callee'), (rawp + '->' + P.K(a).split(rawp + '->')[1].split('.')[0].split(')')[0]) if (rawp + '->') in P.K(a) else P.K(a)[:40]), 'the callee does not store through this argument (const parameter, or no store through it or its aliases, transitively)',
+                      'htp_normalize_parsed_uri passes the raw component %s to %s(), which takes it as a modifiable object: the raw components are rewritten after the split and no longer re-join to the request target' % (P.K(a), c.get('callee')), c['loc'])
+    for b, i, x in nz.find(lambda y: y.get('k') == 'assign' and P.K(y['l']).startswith(rawp + '->')):
+        res.violated('C13.c', 'raw-components-read-only:store:%s' % P.K(x['l']), 'htp_normalize_parsed_uri stores into the raw URI (%s)' % S(x)[:60], x['loc'])
+    res.floor('C13.c', 'uses of raw components in the normaliser', nraw, 6)
     # ---- C13.b
     for fname, target, inval in (('htp_parse_port', '*port', ('*invalid', '1')), ('htp_normalize_parsed_uri', 'normalized->port_number', ('flag', 'HTP_HOSTU_INVALID'))):
         g = db.get(fname)
